@@ -29,7 +29,7 @@ GARBAGE_DECL = ['(x)', '[a]', '{a:b}', 'x(y)', 'x(y:1)', '$', '1px', '"s"', '#f0
                 'color #fff: blue', 'top 1: 2', 'color: red: blue', 'color red', 'top:: 1px', ':top: 1px', 'a b: c']
 GARBAGE_STMT = ['x(y){d:e}', '(y){d:e}', '[y]{d:e}', '$ {a:b}', 'a,,b{c:d}', 'a{{}}', '@unknown x;', '@unknown { a { b } }', '@import "late.css";',
                 '@charset "x";', '@namespace "late";', '1px{a:b}', '"s"{a:b}', '#{a:b}', '.{a:b}',
-                'a b c;', '@x (a;b) [c;d];', 'f(;){a:b}', '@page x x x { }', '@media {a{b:c}}', '@font-face;', 'a! {b:c}']
+                'a b c;', '@x (a;b) [c;d];', '@import "x" print { x { y: 1 } }', '@import { "x" }', '@charset { a }', '@namespace p { "u" }', 'f(;){a:b}', '@page x x x { }', '@media {a{b:c}}', '@font-face;', 'a! {b:c}']
 
 
 def parse(text):
@@ -143,8 +143,49 @@ def run(ctx):
             nested_truncation(ctx, rng, sp)
         if i == 2:
             ctx.sample(case)
+    header_injection(ctx, rng)
     agree = slicing.correspondence(ctx, texts[:200 if quick else 4000])
     ctx.extra['correspondence'] = {'slicing_checks_agree_total': agree}
+
+
+HEADER_SHEET = ['@charset "utf-8";', '@import "i.css" print;', '@namespace hp "http://h";', '@variables { hv: 1px; hw: red }',
+                'hp|a { left: var(hv) }', '@media tv { b { color: var(hw) } }', '@page { margin: 1cm }', '@font-face { font-family: h }', 'z { top: 0 }']
+
+
+def header_injection(ctx, rng):
+    """a sheet holding every kind of header rule (@charset, @import, @namespace, @variables): a malformed or unknown
+    statement at any boundary drops nothing else - rules, the variables and the namespaces stay what they were"""
+    import cssutils
+    from harness import sem_dom as S
+
+    def facts(sh):
+        return (S.sem_sheet(sh), sorted((k, sh.variables.getVariableValue(k)) for k in sh.variables.keys()), sorted(dict(sh.namespaces.items()).items()),
+                [r.type for r in sh.cssRules if r.type not in (r.UNKNOWN_RULE, r.COMMENT)])
+    base = facts(parse(' '.join(HEADER_SHEET)))
+    for g in GARBAGE_STMT + ['@foo bar;', '@foo { a { b: c } }', '/*c*/', '@x (a) [b] "c";']:
+        alone = parse(g)
+        # some of the "garbage" is a valid rule by itself ([y]{d:e}, @media {a{b:c}}): before the header rules it
+        # rightly ends the header section, so there it is no damage in the property's sense
+        valid_rule = any(r.type not in (r.UNKNOWN_RULE, r.COMMENT) for r in alone.cssRules)
+        if valid_rule:
+            continue
+        for k in range(len(HEADER_SHEET) + 1):
+            if g.startswith(('@import', '@charset', '@namespace')) and k < 4:
+                continue      # a well-formed header rule in a header position is no garbage
+            if k == 0:
+                continue      # anything before @charset (a comment too) makes the @charset rule itself misplaced
+            text = ' '.join(HEADER_SHEET[:k] + [g] + HEADER_SHEET[k:])
+            case = {'text': text, 'garbage': g, 'level': 'header-statement', 'at': k}
+            ctx.case(text)
+            try:
+                got = facts(parse(text))
+            except Exception as e:
+                ctx.violation('raises', case, '%s: %s' % (type(e).__name__, e), KNOWN_PRED)
+                continue
+            sem_ok = got[0] == base[0] or (len(got[0]) == len(base[0]) + 1 and any(got[0][:j] + got[0][j + 1:] == base[0] for j in range(len(got[0]))))
+            if not sem_ok or got[1:] != base[1:]:
+                ctx.violation('statement-containment', case, 'undamaged: variables %r namespaces %r rule types %r\ndamaged:   variables %r namespaces %r rule types %r' % (
+                    base[1], base[2], base[3], got[1], got[2], got[3]), KNOWN_PRED)
 
 
 def nested_truncation(ctx, rng, sp):
